@@ -595,6 +595,30 @@ read_tun(int tun_fd, char *buf, size_t len)
 }
 #endif
 
+/* The address strings become part of a shell command line:
+ * accept nothing but plain decimal a.b.c.d */
+static int
+is_dotted_quad(const char *s)
+{
+	int parts;
+
+	for (parts = 0; parts < 4; parts++) {
+		int digits = 0;
+		int val = 0;
+
+		while (*s >= '0' && *s <= '9' && digits < 4) {
+			val = val * 10 + (*s - '0');
+			digits++;
+			s++;
+		}
+		if (digits < 1 || digits > 3 || val > 255)
+			return 0;
+		if (parts < 3 && *s++ != '.')
+			return 0;
+	}
+	return *s == '\0';
+}
+
 int
 tun_setip(const char *ip, const char *other_ip, int netbits)
 {
@@ -630,8 +654,12 @@ tun_setip(const char *ip, const char *other_ip, int netbits)
 		netmask <<= (32 - netbits);
 	net.s_addr = htonl(netmask);
 
-	if (inet_addr(ip) == INADDR_NONE) {
+	if (!is_dotted_quad(ip) || inet_addr(ip) == INADDR_NONE) {
 		fprintf(stderr, "Invalid IP: %s!\n", ip);
+		return 1;
+	}
+	if (!is_dotted_quad(other_ip)) {
+		fprintf(stderr, "Invalid IP: %s!\n", other_ip);
 		return 1;
 	}
 #ifndef WINDOWS32
